@@ -249,9 +249,15 @@ func account(sum *Summary, t *hx.HistTrace, ms []hx.ModelStep, seen map[[32]byte
 	nontrivial := false
 	var sig strings.Builder
 	for si, st := range t.Steps {
+		_ = si
 		sum.Steps++
-		for _, op := range t.H.Steps[si].Ops {
-			sum.OpHist[op.Name]++
+		for _, in := range st.Input {
+			f := strings.Fields(in)
+			if len(f) >= 3 && f[0] == "O" {
+				sum.OpHist[f[2]]++
+			} else if len(f) >= 2 && f[0] == "o" {
+				sum.OpHist[f[1]]++
+			}
 		}
 		for _, part := range strings.Split(st.R, " ; ") {
 			f := strings.Fields(part)
